@@ -93,6 +93,13 @@ def write_string(o, s, pos, force):
     if not quoted and _plain_identifier(s) and o.flip(0.3):
         o.w('"' + s + '"')                      # optional quotes around a plain word
         return
+    esc = s.replace("\\", "\\\\").replace('"', '\\"').replace("\n", "\\n").replace("\t", "\\t")
+    if not quoted and o.r is not None and "\r" not in s and o.flip(0.12):
+        # quoting is always a legal spelling of a string value, whatever the emitter would do with it: this keeps the
+        # spelling independent of the implementation's quoting decision (a value the emitter wrongly leaves bare is
+        # still offered to the reader as the string it is)
+        o.w('"' + esc + '"')
+        return
     if quoted:
         words = s.split(" ")
         if pos in ("assign", "meta") and len(words) >= 2 and all(PLAIN_WORD.match(w) and w not in RESERVED and w != "META"
@@ -100,9 +107,10 @@ def write_string(o, s, pos, force):
             o.receipts.append(("multi", s, s, o.line, o.col))
             o.w(s)                                   # multi-word bare value
             return
-        if s and '"' not in s and "\\" not in s and "\n" not in s and "\t" not in s and "\r" not in s and o.flip(0.3):
+        if s and "\r" not in s and o.flip(0.3):
+            # triple quotes take the same escapes as single quotes (the body is the escaped text)
             o.receipts.append(("norm", '"""', s, o.line, o.col))
-            o.w('"""' + s + '"""')
+            o.w('"""' + esc + '"""')
             return
     o.w(c)
 
